@@ -419,6 +419,9 @@ func (c14ng) Run(c Case) (res Result) {
 
 	// the prefix oracle for a script: what must come out of the first k bytes
 	checkCut := func(k int, r *ngSessionResult) {
+		if len(r.Later) > 0 {
+			res.Oracle = append(res.Oracle, fmt.Sprintf("C14:later-read-alters-earlier\tcut=%d %s", k, r.Later[0]))
+		}
 		if sc.IsRaw {
 			f := getFull()
 			if len(r.Pkts) > len(f.Pkts) {
@@ -512,6 +515,21 @@ func (c14ng) Run(c Case) (res Result) {
 			res.Obs = append(res.Obs, r.Lines()...)
 			if r.New == "panic" || r.End == "panic" {
 				res.Oracle = append(res.Oracle, "C14:roundtrip\treader panicked on the written file")
+			}
+			for _, l := range r.Later {
+				res.Oracle = append(res.Oracle, "C14:later-read-alters-earlier\t"+l)
+				break
+			}
+			if !sc.Ro.ZeroCopy && sc.Ro.Mixed && len(r.Pkts) >= 2 {
+				lts := map[int]bool{}
+				for _, p := range r.Pkts {
+					if len(p.CI.AncillaryData) > 0 {
+						lts[ngAncil(p.CI.AncillaryData[0])] = true
+					}
+				}
+				if len(lts) >= 2 {
+					tags["kept-across-reads"] = true
+				}
 			}
 			if sc.IsRaw {
 				continue
@@ -801,6 +819,29 @@ func (c14ng) Gen(rng *rand.Rand, tier string) []Case {
 		ops = append(ops, fmt.Sprintf("pkt:0,%x,1,60,aa,c./c.", int64(1600000001e9)))
 		add(ops, "ro:100", "mode:copy", "full", "cutall")
 		add(ops, "ro:000", "mode:zc", "full", "cutall")
+	}
+	// (a2) several interfaces of different link types, packets alternating between them, all link
+	// types wanted, copying read: everything returned is kept and compared after the last read
+	na2 := 16
+	if tier == "thorough" {
+		na2 = 200
+	}
+	for i := 0; i < na2; i++ {
+		dl := []int{1, 101, 113, 0, 228}
+		lks := rng.Perm(len(dl))
+		ops := []string{"sec:,,,", fmt.Sprintf("if:%s,,,,,%d,9,0,0", hx([]byte("i0")), dl[lks[0]])}
+		nif := 2 + rng.Intn(2)
+		for j := 1; j < nif; j++ {
+			ops = append(ops, fmt.Sprintf("if:%s,,,,,%d,9,0,0", hx([]byte(fmt.Sprintf("i%d", j))), dl[lks[j]]))
+		}
+		for j, np := 0, 3+rng.Intn(6); j < np; j++ {
+			n := 1 + rng.Intn(12)
+			ops = append(ops, fmt.Sprintf("pkt:%d,%x,%d,%d,%s,%s", (j+rng.Intn(2))%nif, ngGenTs(rng), n, n+rng.Intn(3), hx(ngRandBytes(rng, n)), ngGenOpts(rng, j%2 == 0)))
+		}
+		add(ops, "ro:100", "mode:copy", "full")
+		if i%4 == 0 {
+			add(ops, "ro:110", "mode:copy", "full", "cutall")
+		}
 	}
 	// (b) random scripts
 	n := 36
